@@ -154,3 +154,559 @@ Proof.
   intros [|x l] Hne Hnc; [contradiction|]. rewrite sep_eq. unfold split.
   rewrite (split_go_join l x [] _ Hnc) by lia. reflexivity.
 Qed.
+
+(* ------------------------------------------------------------------ *)
+(* 2. tokens: '{'^o item '}'^c                                         *)
+
+Inductive itm := IDots | IUnder | IVal (v : N) (inacc : bool).
+Definition tok := (nat * option itm * nat)%type.
+
+Definition print_itm (i : option itm) : bytes :=
+  match i with
+  | None => []
+  | Some IDots => s2b "..."
+  | Some IUnder => s2b "_"
+  | Some (IVal v inacc) => hex0x v ++ (if inacc then s2b "?" else [])
+  end.
+Definition print_tok (t : tok) : bytes :=
+  let '(o, i, c) := t in repeat b_lbrace o ++ print_itm i ++ repeat b_rbrace c.
+
+Lemma lower_hex_range : forall x, is_lower_hex x = true ->
+  ((48 <= x /\ x <= 57) \/ (97 <= x /\ x <= 102))%N.
+Proof.
+  intros x H. unfold is_lower_hex, is_digit in H.
+  apply orb_true_iff in H as [H|H]; apply andb_true_iff in H as [H1 H2];
+    apply N.leb_le in H1; apply N.leb_le in H2; lia.
+Qed.
+
+Lemma hex0x_cons : forall v, hex0x v = 48%N :: 120%N :: N_to_hex false v.
+Proof. reflexivity. Qed.
+
+(* the last byte of a printed number is a lower-case hex digit *)
+Lemma hex0x_last : forall v, exists l x, hex0x v = l ++ [x] /\ is_lower_hex x = true.
+Proof.
+  intros v.
+  destruct (nonempty_last _ is_lower_hex (N_to_hex false v) (N_to_hex_nonempty v) (N_to_hex_lower v))
+    as (l & x & E & Hx).
+  exists (48%N :: 120%N :: l), x. split; [|exact Hx]. rewrite hex0x_cons, E. reflexivity.
+Qed.
+
+Definition head_not (c : N) (m : bytes) : Prop :=
+  match m with [] => True | y :: _ => N.eqb c y = false end.
+
+Lemma print_itm_head : forall i, head_not b_lbrace (print_itm i).
+Proof.
+  intros [[| |v inacc]|]; try exact I; try reflexivity.
+Qed.
+
+Lemma print_itm_last : forall i, head_not b_rbrace (rev (print_itm i)).
+Proof.
+  intros [[| |v inacc]|]; try exact I; try reflexivity.
+  cbn [print_itm]. destruct inacc.
+  - rewrite rev_app_distr. reflexivity.
+  - rewrite app_nil_r. destruct (hex0x_last v) as (l & x & E & Hx). rewrite E, rev_app_distr.
+    cbn [rev app head_not]. apply lower_hex_range in Hx. apply N.eqb_neq. unfold b_rbrace. lia.
+Qed.
+
+Lemma count_head_not : forall c m, head_not c m -> count_while (N.eqb c) m = 0.
+Proof. intros c [|y m] H; [reflexivity|]. cbn [head_not] in H. cbn [count_while]. rewrite H. reflexivity. Qed.
+
+Lemma trim_curly_tok : forall o m c, head_not b_lbrace m -> head_not b_rbrace (rev m) ->
+  trim_curly (repeat b_lbrace o ++ m ++ repeat b_rbrace c) = (o, m, c).
+Proof.
+  intros o m c Hh Hl. unfold trim_curly.
+  assert (E1 : count_while (N.eqb b_lbrace) (repeat b_lbrace o ++ m ++ repeat b_rbrace c) = o).
+  { rewrite count_while_repeat by apply N.eqb_refl.
+    rewrite count_head_not; [lia|].
+    destruct m as [|y m]; [|exact Hh]. destruct c as [|c]; [exact I|reflexivity]. }
+  rewrite E1, skipn_repeat_app.
+  assert (E2 : count_while (N.eqb b_rbrace) (rev (m ++ repeat b_rbrace c)) = c).
+  { rewrite rev_app_distr, rev_repeat, count_while_repeat by apply N.eqb_refl.
+    rewrite count_head_not by exact Hl. lia. }
+  rewrite E2. rewrite app_length, repeat_length.
+  replace (List.length m + c - c) with (List.length m) by lia.
+  rewrite firstn_app_exact. reflexivity.
+Qed.
+
+Lemma trim_curly_print_tok : forall o i c, trim_curly (print_tok (o, i, c)) = (o, print_itm i, c).
+Proof. intros o i c. apply trim_curly_tok; [apply print_itm_head|apply print_itm_last]. Qed.
+
+Lemma print_tok_nocomma : forall t, nocomma (print_tok t).
+Proof.
+  intros [[o i] c]. unfold nocomma, print_tok. rewrite !forallb_app.
+  rewrite !forallb_repeat by reflexivity. rewrite andb_true_r. cbn [andb].
+  destruct i as [[| |v inacc]|]; try reflexivity.
+  cbn [print_itm]. rewrite forallb_app, hex0x_cons. cbn [forallb].
+  replace (forallb (fun c0 : N => negb (c0 =? 44)%N) (if inacc then s2b "?" else [])) with true
+    by (destruct inacc; reflexivity).
+  rewrite andb_true_r. change (48 =? 44)%N with false. change (120 =? 44)%N with false. cbn [negb andb].
+  apply (forallb_impl _ is_lower_hex); [|apply N_to_hex_lower].
+  intros x Hx. apply lower_hex_range in Hx. apply negb_true_iff, N.eqb_neq. lia.
+Qed.
+
+(* ------------------------------------------------------------------ *)
+(* 3. the item of a piece                                              *)
+
+(* the middle part of pa_piece *)
+Definition parse_item (a : bytes) (st1 : list frame) : option (list frame) :=
+  match a with
+  | [] => Some st1
+  | _ =>
+      if beq a (s2b "...") then Some (set_elided st1)
+      else if beq a (s2b "_") then Some (push_val (mk_arg false [] 0 false true false emptyArgs) st1)
+      else
+        let inacc := has_suffix a (s2b "?") in
+        let a' := if inacc then firstn (List.length a - 1) a else a in
+        match parse_uint a' with
+        | None => None
+        | Some v => Some (push_val (mk_arg false [] v (is_ptr_value v) false inacc emptyArgs) st1)
+        end
+  end.
+
+Lemma pa_piece_eq : forall st piece,
+  pa_piece st piece =
+  let '(opened, a, closed) := trim_curly piece in
+  match pa_open opened st with
+  | None => inr PaDepth
+  | Some st1 =>
+      match parse_item a st1 with
+      | None => inr PaInt
+      | Some st2 =>
+          match pa_close closed st2 with
+          | None => inr PaClose
+          | Some st3 => inl st3
+          end
+      end
+  end.
+Proof. reflexivity. Qed.
+
+Definition item_act (i : itm) (st : list frame) : option (list frame) :=
+  match i with
+  | IDots => Some (set_elided st)
+  | IUnder => Some (push_val (mk_arg false [] 0 false true false emptyArgs) st)
+  | IVal v inacc =>
+      if (v <? 18446744073709551616)%N
+      then Some (push_val (mk_arg false [] v (is_ptr_value v) false inacc emptyArgs) st)
+      else None
+  end.
+Definition oitem_act (i : option itm) (st : list frame) : option (list frame) :=
+  match i with None => Some st | Some i => item_act i st end.
+
+Lemma has_suffix_last1 : forall l x y, has_suffix (l ++ [x]) [y] = N.eqb x y.
+Proof.
+  intros l x y. unfold has_suffix. rewrite app_length. cbn [List.length].
+  replace (List.length l + 1 - 1) with (List.length l) by lia.
+  rewrite skipn_app_exact. cbn [beq]. rewrite andb_true_r.
+  replace (Nat.leb 1 (List.length l + 1)) with true by (symmetry; apply Nat.leb_le; lia).
+  reflexivity.
+Qed.
+
+Lemma firstn_last1 : forall (l : bytes) x, firstn (List.length (l ++ [x]) - 1) (l ++ [x]) = l.
+Proof.
+  intros l x. rewrite app_length. cbn [List.length].
+  replace (List.length l + 1 - 1) with (List.length l) by lia. apply firstn_app_exact.
+Qed.
+
+Lemma parse_item_val : forall v (inacc : bool) st1, (v < 18446744073709551616)%N ->
+  parse_item (hex0x v ++ (if inacc then s2b "?" else [])) st1 =
+  Some (push_val (mk_arg false [] v (is_ptr_value v) false inacc emptyArgs) st1).
+Proof.
+  intros v inacc st1 Hv.
+  remember (hex0x v ++ (if inacc then s2b "?" else [])) as a eqn:Ea.
+  assert (Hc : exists r, a = 48%N :: 120%N :: r).
+  { subst a. rewrite hex0x_cons. eexists. reflexivity. }
+  destruct Hc as (r & Er).
+  assert (H1 : beq a (s2b "...") = false) by (rewrite Er; reflexivity).
+  assert (H2 : beq a (s2b "_") = false) by (rewrite Er; reflexivity).
+  assert (H3 : has_suffix a (s2b "?") = inacc /\
+               (if inacc then firstn (List.length a - 1) a else a) = hex0x v).
+  { subst a. change (s2b "?") with [63%N]. destruct inacc.
+    - rewrite has_suffix_last1, firstn_last1. split; reflexivity.
+    - rewrite app_nil_r. split; [|reflexivity].
+      destruct (hex0x_last v) as (l & x & E & Hx). rewrite E, has_suffix_last1.
+      apply lower_hex_range in Hx. apply N.eqb_neq. lia. }
+  destruct H3 as [H3 H4].
+  unfold parse_item. rewrite H1, H2. cbv zeta. rewrite H3, H4, (parse_uint_hex0x v Hv).
+  rewrite Er. reflexivity.
+Qed.
+
+Lemma parse_item_print : forall i st1 st2,
+  oitem_act i st1 = Some st2 -> parse_item (print_itm i) st1 = Some st2.
+Proof.
+  intros [[| |v inacc]|] st1 st2 H; cbn [oitem_act item_act] in H.
+  - rewrite <- H. reflexivity.
+  - rewrite <- H. reflexivity.
+  - destruct (v <? 18446744073709551616)%N eqn:Hv; [|discriminate].
+    apply N.ltb_lt in Hv. rewrite <- H. cbn [print_itm]. apply parse_item_val. exact Hv.
+  - rewrite <- H. reflexivity.
+Qed.
+
+Lemma pa_piece_tok : forall o i c st st1 st2 st3,
+  pa_open o st = Some st1 -> oitem_act i st1 = Some st2 -> pa_close c st2 = Some st3 ->
+  pa_piece st (print_tok (o, i, c)) = inl st3.
+Proof.
+  intros o i c st st1 st2 st3 H1 H2 H3.
+  rewrite pa_piece_eq, trim_curly_print_tok, H1, (parse_item_print _ _ _ H2), H3. reflexivity.
+Qed.
+
+(* ------------------------------------------------------------------ *)
+(* 4. events: the effect of a token list as a flat run                 *)
+
+Inductive ev := EOpen | EClose | EItem (i : itm).
+
+Definition run_ev (e : ev) (st : list frame) : option (list frame) :=
+  match e with
+  | EOpen => pa_open 1 st
+  | EClose => pa_close 1 st
+  | EItem i => item_act i st
+  end.
+Fixpoint run (es : list ev) (st : list frame) : option (list frame) :=
+  match es with
+  | [] => Some st
+  | e :: es' => match run_ev e st with Some st' => run es' st' | None => None end
+  end.
+
+Lemma run_app : forall es1 es2 st,
+  run (es1 ++ es2) st = match run es1 st with Some st' => run es2 st' | None => None end.
+Proof.
+  induction es1 as [|e es1 IH]; intros es2 st; [reflexivity|].
+  cbn [app run]. destruct (run_ev e st) as [st'|]; [apply IH|reflexivity].
+Qed.
+
+Lemma run_opens : forall n st, run (repeat EOpen n) st = pa_open n st.
+Proof.
+  induction n as [|n IH]; intros st; [reflexivity|].
+  cbn [repeat run run_ev pa_open].
+  destruct (Nat.leb max_depth (List.length (mkFrame [] false :: st) - 1)); [reflexivity|apply IH].
+Qed.
+
+Lemma run_closes : forall n st, run (repeat EClose n) st = pa_close n st.
+Proof.
+  induction n as [|n IH]; intros st; [reflexivity|].
+  cbn [repeat run run_ev pa_close].
+  destruct st as [|f [|g st']]; try reflexivity. apply IH.
+Qed.
+
+Definition ievs (i : option itm) : list ev := match i with None => [] | Some i => [EItem i] end.
+Definition evs_of_tok (t : tok) : list ev :=
+  let '(o, i, c) := t in repeat EOpen o ++ ievs i ++ repeat EClose c.
+Definition evs (ts : list tok) : list ev := List.concat (map evs_of_tok ts).
+
+Lemma evs_app : forall l1 l2, evs (l1 ++ l2) = evs l1 ++ evs l2.
+Proof. intros l1 l2. unfold evs. rewrite map_app, concat_app. reflexivity. Qed.
+
+Lemma evs_cons : forall t l, evs (t :: l) = evs_of_tok t ++ evs l.
+Proof. reflexivity. Qed.
+
+Lemma run_tok : forall o i c st st',
+  run (evs_of_tok (o, i, c)) st = Some st' ->
+  exists st1 st2, pa_open o st = Some st1 /\ oitem_act i st1 = Some st2 /\ pa_close c st2 = Some st'.
+Proof.
+  intros o i c st st' H. unfold evs_of_tok in H.
+  rewrite run_app, run_opens in H. destruct (pa_open o st) as [st1|]; [|discriminate].
+  rewrite run_app in H.
+  assert (E : run (ievs i) st1 = oitem_act i st1).
+  { destruct i as [i|]; [|reflexivity]. cbn [ievs run run_ev oitem_act].
+    destruct (item_act i st1); reflexivity. }
+  rewrite E in H. destruct (oitem_act i st1) as [st2|] eqn:E2; [|discriminate].
+  rewrite run_closes in H. exists st1, st2. auto.
+Qed.
+
+Lemma pa_loop_toks : forall ts st st',
+  run (evs ts) st = Some st' -> pa_loop st (map print_tok ts) = inl st'.
+Proof.
+  induction ts as [|[[o i] c] ts IH]; intros st st' H.
+  - cbn in H. injection H as <-. reflexivity.
+  - rewrite evs_cons, run_app in H.
+    destruct (run (evs_of_tok (o, i, c)) st) as [sta|] eqn:Ht; [|discriminate].
+    destruct (run_tok _ _ _ _ _ Ht) as (st1 & st2 & H1 & H2 & H3).
+    cbn [map pa_loop]. rewrite (pa_piece_tok _ _ _ _ _ _ _ H1 H2 H3). apply IH. exact H.
+Qed.
+
+(* ------------------------------------------------------------------ *)
+(* 5. the tokens and the events of an argument tree                    *)
+
+Definition etok : tok := (0, None, 0).
+Definition ne_toks (l : list tok) : list tok := match l with [] => [etok] | _ => l end.
+Definition open1 (t : tok) : tok := let '(o, i, c) := t in (S o, i, c).
+Definition close1 (t : tok) : tok := let '(o, i, c) := t in (o, i, S c).
+Definition upd_first {A} (f : A -> A) (l : list A) : list A :=
+  match l with [] => [] | x :: l' => f x :: l' end.
+Definition wrap (l : list tok) : list tok := upd_first open1 (upd_last close1 l).
+Definition el_toks (el : bool) : list tok := if el then [(0, Some IDots, 0)] else [].
+
+Fixpoint toks_arg (a : p_arg) : list tok :=
+  match a with
+  | PVal v i => [(0, Some (IVal v i), 0)]
+  | PTooLarge => [(0, Some IUnder, 0)]
+  | PAgg fs el => wrap (ne_toks (List.concat (map toks_arg fs) ++ el_toks el))
+  end.
+Definition toks_of (args : list p_arg) (el : bool) : list tok :=
+  ne_toks (List.concat (map toks_arg args) ++ el_toks el).
+
+Definition el_evs (el : bool) : list ev := if el then [EItem IDots] else [].
+Fixpoint evs_arg (a : p_arg) : list ev :=
+  match a with
+  | PVal v i => [EItem (IVal v i)]
+  | PTooLarge => [EItem IUnder]
+  | PAgg fs el => EOpen :: (List.concat (map evs_arg fs) ++ el_evs el) ++ [EClose]
+  end.
+Definition evs_list (args : list p_arg) (el : bool) : list ev :=
+  List.concat (map evs_arg args) ++ el_evs el.
+
+(* induction on argument trees *)
+Section p_arg_ind2.
+  Variable P : p_arg -> Prop.
+  Hypothesis HV : forall v i, P (PVal v i).
+  Hypothesis HT : P PTooLarge.
+  Hypothesis HA : forall fs el, Forall P fs -> P (PAgg fs el).
+  Fixpoint p_arg_ind2 (a : p_arg) : P a :=
+    match a with
+    | PVal v i => HV v i
+    | PTooLarge => HT
+    | PAgg fs el =>
+        HA fs el ((fix go (l : list p_arg) : Forall P l :=
+                     match l with
+                     | [] => Forall_nil P
+                     | x :: l' => Forall_cons x (p_arg_ind2 x) (go l')
+                     end) fs)
+    end.
+End p_arg_ind2.
+
+Lemma ne_toks_nonempty : forall l, ne_toks l <> [].
+Proof. intros [|x l]; discriminate. Qed.
+
+Lemma upd_last_nonempty : forall (A : Type) (f : A -> A) l, l <> [] -> upd_last f l <> [].
+Proof. intros A f [|x [|y l]] H; [contradiction|discriminate|discriminate]. Qed.
+
+Lemma wrap_nonempty : forall l, l <> [] -> wrap l <> [].
+Proof.
+  intros l H. unfold wrap. pose proof (upd_last_nonempty _ close1 l H) as H1.
+  destruct (upd_last close1 l); [contradiction|discriminate].
+Qed.
+
+Lemma toks_arg_nonempty : forall a, toks_arg a <> [].
+Proof.
+  intros [v i| |fs el]; try discriminate. cbn [toks_arg]. apply wrap_nonempty, ne_toks_nonempty.
+Qed.
+
+(* ---- text of the tokens ---- *)
+
+Definition jtoks (l : list tok) : bytes := join (map print_tok l) sep.
+
+Lemma print_tok_open1 : forall t, print_tok (open1 t) = b_lbrace :: print_tok t.
+Proof. intros [[o i] c]. reflexivity. Qed.
+
+Lemma print_tok_close1 : forall t, print_tok (close1 t) = print_tok t ++ [b_rbrace].
+Proof.
+  intros [[o i] c]. unfold close1, print_tok. rewrite repeat_S_end, !app_assoc. reflexivity.
+Qed.
+
+Lemma jtoks_cons : forall t l, jtoks (t :: l) = print_tok t ++ jtail (map print_tok l).
+Proof. intros t l. unfold jtoks. cbn [map]. apply join_jtail. Qed.
+
+Lemma jtoks_upd_first : forall l, l <> [] -> jtoks (upd_first open1 l) = b_lbrace :: jtoks l.
+Proof.
+  intros [|t l] H; [contradiction|]. cbn [upd_first]. rewrite !jtoks_cons, print_tok_open1. reflexivity.
+Qed.
+
+Lemma jtoks_upd_last : forall l, l <> [] -> jtoks (upd_last close1 l) = jtoks l ++ [b_rbrace].
+Proof.
+  induction l as [|t l IH]; intros H; [contradiction|].
+  destruct l as [|u l].
+  - cbn [upd_last]. rewrite !jtoks_cons, print_tok_close1. cbn [map]. unfold jtail. cbn [map List.concat].
+    rewrite !app_nil_r. reflexivity.
+  - change (upd_last close1 (t :: u :: l)) with (t :: upd_last close1 (u :: l)).
+    assert (Hne : u :: l <> []) by discriminate.
+    rewrite !jtoks_cons. rewrite !jtail_join.
+    + fold (jtoks (upd_last close1 (u :: l))). fold (jtoks (u :: l)). rewrite (IH Hne).
+      rewrite <- !app_assoc. reflexivity.
+    + cbn [map]. discriminate.
+    + intros C. apply map_eq_nil in C. revert C. apply upd_last_nonempty. exact Hne.
+Qed.
+
+Lemma jtoks_wrap : forall l, l <> [] -> jtoks (wrap l) = b_lbrace :: jtoks l ++ [b_rbrace].
+Proof.
+  intros l H. unfold wrap. rewrite jtoks_upd_first by (apply upd_last_nonempty; exact H).
+  rewrite jtoks_upd_last by exact H. reflexivity.
+Qed.
+
+Lemma jtoks_ne_toks : forall l, jtoks (ne_toks l) = jtoks l.
+Proof. intros [|t l]; reflexivity. Qed.
+
+Lemma print_arg_agg : forall fs el,
+  print_arg (PAgg fs el) =
+  b_lbrace :: join (map print_arg fs ++ map print_tok (el_toks el)) sep ++ [b_rbrace].
+Proof. intros fs el. destruct el; reflexivity. Qed.
+
+Lemma print_args_eq : forall args el,
+  print_args args el = join (map print_arg args ++ map print_tok (el_toks el)) sep.
+Proof. intros args el. destruct el; reflexivity. Qed.
+
+(* the printed items are the printed tokens, given that for each argument *)
+Lemma jtail_items : forall args tail,
+  Forall (fun a => print_arg a = jtoks (toks_arg a)) args ->
+  jtail (map print_arg args ++ map print_tok tail) =
+  jtail (map print_tok (List.concat (map toks_arg args) ++ tail)).
+Proof.
+  intros args tail H. induction H as [|a args Ha _ IH].
+  - reflexivity.
+  - cbn [map List.concat app]. rewrite jtail_cons, IH, <- app_assoc.
+    rewrite (map_app print_tok (toks_arg a)), (jtail_app (map print_tok (toks_arg a))).
+    rewrite (jtail_join (map print_tok (toks_arg a))).
+    + rewrite Ha. unfold jtoks. rewrite <- !app_assoc. reflexivity.
+    + intros C. apply map_eq_nil in C. revert C. apply toks_arg_nonempty.
+Qed.
+
+Lemma join_items : forall args el,
+  Forall (fun a => print_arg a = jtoks (toks_arg a)) args ->
+  join (map print_arg args ++ map print_tok (el_toks el)) sep =
+  jtoks (ne_toks (List.concat (map toks_arg args) ++ el_toks el)).
+Proof.
+  intros args el H. rewrite jtoks_ne_toks. unfold jtoks.
+  apply jtail_join_eq, jtail_items. exact H.
+Qed.
+
+Lemma print_arg_toks : forall a, print_arg a = jtoks (toks_arg a).
+Proof.
+  induction a as [v i| |fs el IH] using p_arg_ind2.
+  - unfold jtoks. cbn [toks_arg map join print_tok repeat app]. rewrite app_nil_r. reflexivity.
+  - reflexivity.
+  - rewrite print_arg_agg. cbn [toks_arg]. rewrite jtoks_wrap by apply ne_toks_nonempty.
+    rewrite (join_items fs el IH). reflexivity.
+Qed.
+
+Lemma print_args_toks : forall args el, print_args args el = jtoks (toks_of args el).
+Proof.
+  intros args el. rewrite print_args_eq. apply join_items.
+  apply Forall_forall. intros a _. apply print_arg_toks.
+Qed.
+
+(* ---- events of the tokens ---- *)
+
+Lemma evs_of_tok_open1 : forall t, evs_of_tok (open1 t) = EOpen :: evs_of_tok t.
+Proof. intros [[o i] c]. reflexivity. Qed.
+
+Lemma evs_of_tok_close1 : forall t, evs_of_tok (close1 t) = evs_of_tok t ++ [EClose].
+Proof.
+  intros [[o i] c]. unfold close1, evs_of_tok. rewrite repeat_S_end, !app_assoc. reflexivity.
+Qed.
+
+Lemma evs_upd_first : forall l, l <> [] -> evs (upd_first open1 l) = EOpen :: evs l.
+Proof.
+  intros [|t l] H; [contradiction|]. cbn [upd_first]. rewrite !evs_cons, evs_of_tok_open1. reflexivity.
+Qed.
+
+Lemma evs_upd_last : forall l, l <> [] -> evs (upd_last close1 l) = evs l ++ [EClose].
+Proof.
+  induction l as [|t l IH]; intros H; [contradiction|].
+  destruct l as [|u l].
+  - cbn [upd_last]. rewrite !evs_cons, evs_of_tok_close1. unfold evs. cbn [map List.concat].
+    rewrite !app_nil_r. reflexivity.
+  - change (upd_last close1 (t :: u :: l)) with (t :: upd_last close1 (u :: l)).
+    rewrite (evs_cons t (upd_last close1 (u :: l))), IH by discriminate.
+    rewrite (evs_cons t (u :: l)), <- app_assoc. reflexivity.
+Qed.
+
+Lemma evs_wrap : forall l, l <> [] -> evs (wrap l) = EOpen :: evs l ++ [EClose].
+Proof.
+  intros l H. unfold wrap. rewrite evs_upd_first by (apply upd_last_nonempty; exact H).
+  rewrite evs_upd_last by exact H. reflexivity.
+Qed.
+
+Lemma evs_ne_toks : forall l, evs (ne_toks l) = evs l.
+Proof. intros [|t l]; reflexivity. Qed.
+
+Lemma evs_el_toks : forall el, evs (el_toks el) = el_evs el.
+Proof. intros [|]; reflexivity. Qed.
+
+Lemma evs_items : forall args,
+  Forall (fun a => evs (toks_arg a) = evs_arg a) args ->
+  evs (List.concat (map toks_arg args)) = List.concat (map evs_arg args).
+Proof.
+  intros args H. induction H as [|a args Ha _ IH]; [reflexivity|].
+  cbn [map List.concat]. rewrite evs_app, Ha, IH. reflexivity.
+Qed.
+
+Lemma evs_toks_arg : forall a, evs (toks_arg a) = evs_arg a.
+Proof.
+  induction a as [v i| |fs el IH] using p_arg_ind2; try reflexivity.
+  cbn [toks_arg evs_arg]. rewrite evs_wrap by apply ne_toks_nonempty.
+  rewrite evs_ne_toks, evs_app, (evs_items fs IH), evs_el_toks. reflexivity.
+Qed.
+
+Lemma evs_toks_of : forall args el, evs (toks_of args el) = evs_list args el.
+Proof.
+  intros args el. unfold toks_of, evs_list. rewrite evs_ne_toks, evs_app, evs_el_toks.
+  rewrite evs_items; [reflexivity|]. apply Forall_forall. intros a _. apply evs_toks_arg.
+Qed.
+
+(* ------------------------------------------------------------------ *)
+(* 6. running the events of a tree appends what the tree denotes       *)
+
+(* depth accounting: the stack [frame :: st] has length S |st|; an aggregate
+   that may still nest d levels needs S |st| + d <= max_depth *)
+Definition run_ok (a : p_arg) : Prop :=
+  forall d vs e st, wf_arg d a = true -> S (List.length st) + d <= max_depth ->
+    run (evs_arg a) (mkFrame vs e :: st) = Some (mkFrame (vs ++ [arg_of a]) e :: st).
+
+Lemma run_items : forall args, Forall run_ok args ->
+  forall d vs e st, forallb (wf_arg d) args = true -> S (List.length st) + d <= max_depth ->
+    run (List.concat (map evs_arg args)) (mkFrame vs e :: st) =
+    Some (mkFrame (vs ++ map arg_of args) e :: st).
+Proof.
+  intros args H. induction H as [|a args Ha _ IH]; intros d vs e st Hwf Hd.
+  - cbn [map List.concat run]. rewrite app_nil_r. reflexivity.
+  - cbn [forallb] in Hwf. apply andb_true_iff in Hwf as [Hwa Hwf].
+    cbn [map List.concat]. rewrite run_app, (Ha d vs e st Hwa Hd), (IH d _ e st Hwf Hd).
+    rewrite <- app_assoc. reflexivity.
+Qed.
+
+Lemma run_el : forall el vs e st,
+  run (el_evs el) (mkFrame vs e :: st) = Some (mkFrame vs (e || el) :: st).
+Proof.
+  intros [|] vs e st; cbn.
+  - rewrite orb_true_r. reflexivity.
+  - rewrite orb_false_r. reflexivity.
+Qed.
+
+Lemma run_arg : forall a, run_ok a.
+Proof.
+  induction a as [v i| |fs el IH] using p_arg_ind2; intros d vs e st Hwf Hd.
+  - assert (Hv : (v <? 18446744073709551616)%N = true) by (destruct d; exact Hwf).
+    cbn [evs_arg run run_ev item_act]. rewrite Hv. reflexivity.
+  - reflexivity.
+  - destruct d as [|d']; [discriminate Hwf|]. cbn [wf_arg] in Hwf.
+    cbn [evs_arg run run_ev pa_open].
+    replace (Nat.leb max_depth (List.length (mkFrame [] false :: mkFrame vs e :: st) - 1)) with false
+      by (symmetry; apply Nat.leb_gt; cbn [List.length]; lia).
+    rewrite !run_app.
+    rewrite (run_items fs IH d' [] false (mkFrame vs e :: st) Hwf) by (cbn [List.length]; lia).
+    rewrite run_el. reflexivity.
+Qed.
+
+Lemma run_evs_list : forall args el, wf_args args = true ->
+  run (evs_list args el) [mkFrame [] false] = Some [mkFrame (map arg_of args) el].
+Proof.
+  intros args el Hwf. unfold evs_list. rewrite run_app.
+  rewrite (run_items args) with (d := 5) (vs := []) (e := false) (st := []).
+  - rewrite run_el. reflexivity.
+  - apply Forall_forall. intros a _. apply run_arg.
+  - exact Hwf.
+  - unfold max_depth. cbn [List.length]. lia.
+Qed.
+
+(* ------------------------------------------------------------------ *)
+(* 7. the round trip                                                   *)
+
+Theorem parse_args_print_args : forall args elided,
+  wf_args args = true -> parse_args (print_args args elided) = inl (args_of args elided).
+Proof.
+  intros args el Hwf. unfold parse_args.
+  rewrite print_args_toks. unfold jtoks. rewrite split_join.
+  - rewrite (pa_loop_toks (toks_of args el) _ [mkFrame (map arg_of args) el]).
+    + reflexivity.
+    + rewrite evs_toks_of. apply run_evs_list. exact Hwf.
+  - intros C. apply map_eq_nil in C. revert C. apply ne_toks_nonempty.
+  - apply Forall_forall. intros t Ht. apply in_map_iff in Ht as (t0 & <- & _). apply print_tok_nocomma.
+Qed.
